@@ -5,6 +5,7 @@ from ..vflow import Canon, strip_int_casts, strip_ptr_casts, derived_pointers, a
 from ..guards import Facts
 from ..cfg import reachable_from, reaches_without, postdominators, dominates, natural_loops
 from ..build import AnalysisBroken
+from ..ir import INT
 from . import shared
 
 EXPLANATION = (
@@ -410,8 +411,31 @@ def run(ctx):
                 def writes(i_, fp=fp):
                     if i_.op == 'store' and i_.ops[1] in A16 and fld(i_.ops[1]) == fp:
                         return True
+                    # a write at a computed offset into the object (table-driven member assignment) may be this member
+                    dst_ = i_.ops[1] if i_.op == 'store' else (i_.ops[0] if i_.op == 'call' and (i_.callee or '').startswith('@llvm.memcpy') else None)
+                    if dst_ is not None and dst_ in A16:
+                        gd_ = fi.defs.get(strip_ptr_casts(fi, dst_))
+                        if gd_ is not None and gd_.op == 'getelementptr' and gd_.gep_base_ty == 'i8' and not INT.match(gd_.ops[-1]):
+                            return True
                     return any(i_ is c_ for c_ in cleared)
                 esc = reaches_without(fi, al.bb, lambda i_: i_ is ld, writes, al.idx + 1)
+                if esc is not None:
+                    # a loop with a constant, positive trip count that lies before the read runs its body at least once: a write in a
+                    # block every iteration passes has happened (the zero-iteration path of the CFG is infeasible)
+                    from ..poly import PolyCtx as _PC16h
+                    from ..loops import loops_of as _lo16h
+                    from ..cfg import dominators as _dm16h, dominates as _dom16h
+                    idom_ = _dm16h(fi)
+                    for L_ in _lo16h(P, fi, _PC16h(P, fi)):
+                        hg_ = [g_ for g_ in L_.guards() if g_.block is L_.header]
+                        T_ = L_.trip(hg_[0]) if len(hg_) == 1 else None
+                        tv_ = T_.const_value() if T_ is not None else None
+                        if tv_ is None or tv_ < 1 or ld.bb in L_.body or not _dom16h(idom_, L_.header, ld.bb):
+                            continue
+                        latches = [b_ for b_ in L_.body if L_.header in b_.succs]
+                        for w_ in [i_ for b_ in L_.body for i_ in b_.insts if writes(i_)]:
+                            if all(w_.bb is lb_ or _dom16h(idom_, w_.bb, lb_) for lb_ in latches):
+                                esc = None
                 inst = f'{iname}: read of {".".join(x[1] for x in fp)} at line {ld.line}'
                 if esc is None:
                     r.ok(inst + ' follows a store on every path', func=fi.name, loc=ld.loc, trivial=True)
